@@ -801,3 +801,146 @@ Proof.
   - destruct (negb _); [discriminate|]. destruct (_ && _); discriminate.
   - intros [= ->]. now apply H.
 Qed.
+
+(* ---------------------------------------------------------------------------------------------- *)
+(* The AuthScram object over histories of calls: a WELCOME is accepted only in a state whose salted password
+   came out of a completed KDF of an earlier CHALLENGE of the same history, and only with that state's signature *)
+Section ScramObjProofs.
+  Variable H256 : bytes -> bytes.
+  Variable HMAC256 : bytes -> bytes -> bytes.
+  Variable PBKDF2 : bytes -> bytes -> N -> N -> result bytes.
+  Variable ARGON2ID : bytes -> bytes -> N -> N -> result bytes.
+  Variable SASLPREP : str -> result str.
+  Variable REPR_BYTES : bytes -> str.
+
+  Local Notation on_welcome := (scram_obj_on_welcome HMAC256).
+  Local Notation on_challenge := (scram_obj_on_challenge H256 HMAC256 PBKDF2 ARGON2ID SASLPREP REPR_BYTES).
+  Local Notation run := (scram_obj_run H256 HMAC256 PBKDF2 ARGON2ID SASLPREP REPR_BYTES).
+  Local Notation kdf := (scram_kdf PBKDF2 ARGON2ID).
+
+  Lemma scram_obj_welcome_eval o s alleged sp am :
+    b64decode s = Ok alleged -> so_sp o = Some sp -> so_am o = Some am ->
+    on_welcome o (Some s) =
+      if list_eqb (rfc5802_server_signature HMAC256 (rfc5802_server_key HMAC256 sp) am) alleged then Ok Accept else Ok Deny.
+  Proof. intros Hd Hs Ha. unfold scram_obj_on_welcome. rewrite Hd. cbn [bind]. now rewrite Hs, Ha. Qed.
+
+  Lemma scram_obj_welcome_inv o sig v :
+    on_welcome o sig = Ok v ->
+    exists sp am s alleged, so_sp o = Some sp /\ so_am o = Some am /\ sig = Some s /\ b64decode s = Ok alleged.
+  Proof.
+    unfold scram_obj_on_welcome. destruct sig as [s|]; [|discriminate].
+    destruct (b64decode s) as [alleged|e] eqn:Ed; cbn [bind]; [|discriminate].
+    destruct (so_sp o) as [sp|] eqn:Es; [|discriminate]. destruct (so_am o) as [am|] eqn:Ea; [|discriminate].
+    intros _. exists sp, am, s, alleged. repeat split; assumption || reflexivity.
+  Qed.
+
+  Lemma scram_obj_welcome_spec o sig :
+    (on_welcome o sig = Ok Accept <->
+       exists sp am s, so_sp o = Some sp /\ so_am o = Some am /\ sig = Some s /\
+                       b64decode s = Ok (rfc5802_server_signature HMAC256 (rfc5802_server_key HMAC256 sp) am)) /\
+    (on_welcome o sig = Ok Deny <->
+       exists sp am s alleged, so_sp o = Some sp /\ so_am o = Some am /\ sig = Some s /\ b64decode s = Ok alleged /\
+                               alleged <> rfc5802_server_signature HMAC256 (rfc5802_server_key HMAC256 sp) am).
+  Proof.
+    split; split.
+    - intros H. destruct (scram_obj_welcome_inv _ _ _ H) as (sp & am & s & alleged & Hs & Ha & -> & Hd).
+      rewrite (scram_obj_welcome_eval _ _ _ _ _ Hd Hs Ha) in H.
+      destruct (list_eqb _ alleged) eqn:E; [|discriminate]. apply list_eqb_eq in E. subst alleged.
+      now exists sp, am, s.
+    - intros (sp & am & s & Hs & Ha & -> & Hd). rewrite (scram_obj_welcome_eval _ _ _ _ _ Hd Hs Ha).
+      now rewrite list_eqb_refl.
+    - intros H. destruct (scram_obj_welcome_inv _ _ _ H) as (sp & am & s & alleged & Hs & Ha & -> & Hd).
+      rewrite (scram_obj_welcome_eval _ _ _ _ _ Hd Hs Ha) in H.
+      destruct (list_eqb _ alleged) eqn:E; [discriminate|]. apply list_eqb_neq in E.
+      exists sp, am, s, alleged. repeat split; try assumption. congruence.
+    - intros (sp & am & s & alleged & Hs & Ha & -> & Hd & Hne). rewrite (scram_obj_welcome_eval _ _ _ _ _ Hd Hs Ha).
+      destruct (list_eqb _ alleged) eqn:E; [|reflexivity]. apply list_eqb_eq in E. congruence.
+  Qed.
+
+  (* no challenge completed (an attribute is still unset): every WELCOME, whatever it carries, raises *)
+  Lemma scram_obj_unset_raises o sig :
+    so_sp o = None \/ so_am o = None -> exists e, on_welcome o sig = Raise e.
+  Proof.
+    intros H. unfold scram_obj_on_welcome. destruct sig as [s|]; [|now exists KeyError].
+    destruct (b64decode s) as [a|e]; cbn [bind]; [|now exists e].
+    destruct (so_sp o); [|now exists AttributeError].
+    destruct (so_am o); [|now exists AttributeError].
+    destruct H; discriminate.
+  Qed.
+
+  Lemma scram_fresh_raises sig : exists e, on_welcome scram_fresh sig = Raise e.
+  Proof. apply scram_obj_unset_raises. now left. Qed.
+
+  (* what one on_challenge does to the attributes: the nonce is untouched; the salted password is either untouched
+     or the output of this challenge's KDF *)
+  Lemma scram_obj_on_challenge_state ds password authid x o o' r :
+    on_challenge ds password authid x o = (o', r) ->
+    so_nonce o' = so_nonce o /\
+    (so_sp o' = so_sp o \/
+     exists pw salted, utf8_encode password = Ok pw /\ kdf ds pw x = Ok salted /\ so_sp o' = Some salted).
+  Proof.
+    unfold scram_obj_on_challenge.
+    destruct (so_nonce o) as [cn|] eqn:En; [|intros [= <- <-]; split; [congruence|now left]].
+    destruct (utf8_encode password) as [pw|e]; [|intros [= <- <-]; split; [congruence|now left]].
+    destruct (SASLPREP authid) as [aid|e]; [|intros [= <- <-]; split; [congruence|now left]].
+    destruct (ascii_encode _) as [am|e]; [|intros [= <- <-]; split; [congruence|now left]].
+    destruct (kdf ds pw x) as [salted|e] eqn:Ek.
+    - destruct (scram_client_proof H256 HMAC256 salted am) as [proof|e];
+        intros [= <- <-]; cbn [so_nonce so_sp]; (split; [congruence|]); right; exists pw, salted; repeat split; assumption || reflexivity.
+    - intros [= <- <-]. cbn [so_nonce so_sp]. split; [congruence|now left].
+  Qed.
+
+  (* histories: the salted password of any reachable state is the KDF output of a CHALLENGE of that history *)
+  Lemma scram_obj_run_sp ds password authid ops : forall o o' outs,
+    run ds password authid o ops = (o', outs) ->
+    forall sp, so_sp o' = Some sp ->
+      so_sp o = Some sp \/
+      exists x pw, In (OpChallenge x) ops /\ utf8_encode password = Ok pw /\ kdf ds pw x = Ok sp.
+  Proof.
+    induction ops as [|op r IH]; intros o o' outs Hr sp Hsp.
+    - cbn in Hr. injection Hr as <- <-. now left.
+    - cbn [scram_obj_run] in Hr.
+      destruct (scram_obj_step _ _ _ _ _ _ _ _ _ o op) as [o1 out] eqn:Es.
+      destruct (run ds password authid o1 r) as [o2 outs2] eqn:Er. injection Hr as <- <-.
+      destruct (IH _ _ _ Er sp Hsp) as [H1 | (x & pw & Hin & Hpw & Hk)].
+      2:{ right. exists x, pw. split; [now right|now split]. }
+      destruct op as [n|x|sig]; cbn [scram_obj_step] in Es.
+      + injection Es as <- <-. left. unfold scram_obj_authextra in H1. destruct (so_nonce o); exact H1.
+      + destruct (scram_obj_on_challenge_state _ _ _ _ _ _ _ Es) as (_ & [Hsame | (pw & salted & Hpw & Hk & Hs)]).
+        * left. congruence.
+        * right. exists x, pw. split; [now left|]. split; [exact Hpw|]. congruence.
+      + injection Es as <- <-. now left.
+  Qed.
+
+  (* the statement of mutual authentication over histories: if, after ANY history of calls on a fresh object, a
+     WELCOME is accepted, then the history contains a CHALLENGE whose KDF completed with the state's salted
+     password, and the WELCOME carries exactly HMAC (HMAC salted "Server Key") AuthMessage for the state's values *)
+  Lemma scram_history_mutual ds password authid ops o' outs sig :
+    run ds password authid scram_fresh ops = (o', outs) ->
+    on_welcome o' sig = Ok Accept ->
+    exists x pw sp am s,
+      In (OpChallenge x) ops /\ utf8_encode password = Ok pw /\ kdf ds pw x = Ok sp /\
+      so_sp o' = Some sp /\ so_am o' = Some am /\ sig = Some s /\
+      b64decode s = Ok (rfc5802_server_signature HMAC256 (rfc5802_server_key HMAC256 sp) am).
+  Proof.
+    intros Hr Ha. apply scram_obj_welcome_spec in Ha as (sp & am & s & Hsp & Ham & -> & Hd).
+    destruct (scram_obj_run_sp _ _ _ _ _ _ _ Hr sp Hsp) as [Hf | (x & pw & Hin & Hpw & Hk)]; [discriminate|].
+    exists x, pw, sp, am, s. now repeat split.
+  Qed.
+
+  (* a completed on_challenge of the object is the on_challenge of the single-exchange model *)
+  Lemma scram_obj_on_challenge_ok ds password authid x o cn reply st :
+    so_nonce o = Some cn ->
+    scram_on_challenge H256 HMAC256 PBKDF2 ARGON2ID SASLPREP REPR_BYTES ds password authid cn x = Ok (reply, st) ->
+    on_challenge ds password authid x o =
+      ({| so_nonce := Some cn; so_am := Some (ss_auth_message st); so_sp := Some (ss_salted_password st) |}, Ok reply).
+  Proof.
+    intros Hn. unfold scram_on_challenge, scram_obj_on_challenge, scram_kdf. rewrite Hn.
+    destruct (utf8_encode password) as [pw|e]; cbn [bind]; [|discriminate].
+    destruct (SASLPREP authid) as [aid|e]; cbn [bind]; [|discriminate].
+    destruct (ascii_encode _) as [am|e]; cbn [bind]; [|discriminate].
+    match goal with |- context [bind ?K _] => destruct K as [salted|e] end; cbn [bind]; [|discriminate].
+    destruct (scram_client_proof H256 HMAC256 salted am) as [proof|e]; cbn [bind]; [|discriminate].
+    intros [= <- <-]. reflexivity.
+  Qed.
+End ScramObjProofs.
